@@ -8,7 +8,7 @@ from harness.common import rgs, as_desc, triu_pairs
 
 PROP = 'C09'
 
-GROUPVALS = {'int': [0, 1, 2, 3, 4], 'intgap': [5, 2, 9, 1, 7], 'str': ['gb', 'ga', 'gd', 'gc', 'ge']}
+GROUPVALS = {'int': [0, 1, 2, 3, 4, 5, 6, 7], 'intgap': [5, 2, 9, 1, 7, 3, 11, 0], 'str': ['gb', 'ga', 'gd', 'gc', 'ge', 'gg', 'gf', 'gh']}
 
 
 def pair_index(n, i, j):
@@ -21,7 +21,7 @@ def pair_index(n, i, j):
 def build(T, cfg, name='d'):
     from rsatoolbox.rdm import RDMs
     n_rdm, n_cond = cfg['n_rdm'], cfg['n_cond']
-    D = T.arr(name, (n_rdm, n_cond * (n_cond - 1) // 2))
+    D = T.arr(name, (n_rdm, n_cond * (n_cond - 1) // 2), positive=bool(cfg.get('positive')))
     pg = cfg.get('pgroups') or list(range(n_cond))
     rg = cfg.get('rgroups') or list(range(n_rdm))
     pdesc = {'name': as_desc(['p%d' % i for i in range(n_cond)], cfg['container']),
